@@ -57,7 +57,7 @@ def build_traces(path, tier, seed):
     for i in range(ncall):
         n = gen.length(rng, 3, nmax)
         a, shape = gen.record(rng, n, amp=float(10.0 ** rng.uniform(-1, 1)))
-        dt = [0.01, 0.0078125, 0.02, 0.005, 0.5][i % 5]
+        dt = [0.01, 0.0078125, 0.02, 0.005, 0.5, 1.0e-10, 3.0e-7][int(rng.integers(7))]      # incl. records timed in other units (ns, us)
         nper = int(rng.integers(1, 5))
         ratios = sorted(set([edge[(i + k) % 5] if k % 2 == 0 else c01.regime(rng, i * 4 + k)[0] for k in range(nper)]))
         xi = [0.0, 0.05, 0.3, 0.7, 0.999, float(rng.uniform(0, 0.999)), 0][int(rng.integers(7))]     # incl. exactly 0 (float and int)
@@ -108,8 +108,16 @@ def build_traces(path, tier, seed):
         a, shape = gen.record(rng, n, amp=1.0)
         dt = [0.01, 0.02, 0.005][i % 3]
         q = QS[i % 4]
-        tmin_ratio = float([3.0, 6.0, 12.0, 25.0, 50.0, 5.99, 45.0][i % 7])
+        # shortest period / dt: ordinary values, values just below 20/k (the refinement factor must then be k + 1), and values
+        # that make the factor odd (6.67 .. 10 -> 3; with min_dt_ratio 8 also 4 .. 5 -> 5, 2.86 .. 3.33 -> 7)
+        tmin_ratio = float([3.0, 6.0, 12.0, 25.0, 50.0, 5.99, 45.0, 20.0 / 2.0003, 20.0 / 3.0004, 20.0 / 4.0002, 20.0 / 1.0004, 8.0, 9.5, 4.5, 3.1, 7.0][int(rng.integers(16))])
         ratios = [tmin_ratio] + sorted(float(tmin_ratio * rng.uniform(1.1, 8.0)) for _ in range(int(rng.integers(0, 3))))
+        if rng.integers(3) == 0:
+            # resonance with the shortest period on a record of ODD length: the response is still growing when the record stops
+            n = n + 1 - (n % 2)
+            t_ = np.arange(n)
+            a = np.sin(2 * np.pi * t_ / tmin_ratio + 0.3) * (1.0 + 0.002 * t_)
+            shape = "resonant build-up, odd length"
         periods = [r * dt for r in ratios]
         if i % 4 == 3:
             periods = [0.0] + periods
